@@ -28,6 +28,34 @@ def main():
             verdict += "; " + m["strengthened"]
         cell = lambda s: str(s).replace("|", "\\|").replace("\n", " ")[:300]
         text += f"| {os.path.basename(d)} | {cell(m.get('summary',''))} | {cell(m.get('needs_to_manifest',''))} | {verdict} |\n"
+    text += "\n## 11. Trusted base as measured by the last committed runs\n\n"
+    text += ("Kernel: Coq 8.16.1 (`coqc`, full `.vo` build through `coq_makefile`/`make`), evaluation by `vm_compute` only "
+             "(no `native_compute`); the thorough tier re-checks each property's closure with `coqchk -o`.  No `Axiom`, "
+             "`Parameter`, `Conjecture`, `Admitted`, `admit`, no unset guard/positivity/universe checks anywhere under `coq/` "
+             "(gated textually on every run by `fw.forbidden_gate`), stdlib only; external libraries appear as `Section` "
+             "hypotheses that stay in the theorem statements.  No extraction is used.  Translators that regenerate Coq constants from files on every run "
+             "(fail closed): `harness/translators/schema.py` → `coq/gen/Schemas.v` (C17), `harness/props/c10.py` → `coq/gen/StdExt.v` (C10), "
+             "`harness/props/c07.py` → `coq/gen/StdBounds.v` (C07, C14), `harness/props/c12.py` → `coq/gen/ModelAttrs.v` (C12).  Everything else "
+             "in hugr-py that the properties touch is modelled by hand and tied by the sampled behavioural correspondence.\n\n")
+    text += "| id | theorems | `Print Assumptions` (distinct answers) | property-specific trust |\n|---|---|---|---|\n"
+    for f in sorted(glob.glob(os.path.join(V, "evidence", "C*.json"))):
+        try:
+            e = json.load(open(f))
+        except Exception:
+            continue
+        cov = e.get("coverage", {})
+        tb = cov.get("trusted_base", [])
+        pa = [t for t in tb if t.startswith("Print Assumptions")]
+        answers = set()
+        if pa:
+            try:
+                answers = set(json.loads(pa[0].split(": ", 1)[1]).values())
+            except Exception:
+                answers = {pa[0][:80]}
+        extra = [t for t in tb[4:] if not t.startswith("coqchk")]
+        cell = lambda s_: str(s_).replace("|", "\\|").replace("\n", " ")
+        text += "| %s | %d | %s | %s |\n" % (e.get("property_id"), len(cov.get("theorems", [])),
+                                            cell("; ".join(sorted(answers)) or "?"), cell(" / ".join(extra))[:700])
     open(path, "w").write(text)
 
 
